@@ -903,14 +903,14 @@ func c03lJoin(l []string) string {
 	return strings.Join(l, ",")
 }
 
-func (r *c03lRun) snapshot() {
+func (r *c03lRun) snapshot(tag string) {
 	for i, st := range []*cstate.OpenChannel{r.link.channel.State(), r.bob.State()} {
 		l, rm, pend := c03lSnap(st)
 		p := 0
 		if pend {
 			p = 1
 		}
-		r.emit("S %s lh=%d rh=%d pend=%d ll=%d lr=%d rl=%d rr=%d lhtlcs=%s rhtlcs=%s\n",
+		r.emit(tag+" %s lh=%d rh=%d pend=%d ll=%d lr=%d rl=%d rr=%d lhtlcs=%s rhtlcs=%s\n",
 			string(rune('A'+i)), l.h, rm.h, p, l.lb, l.rb, rm.lb, rm.rb, c03lJoin(l.htlcs),
 			c03lJoin(rm.htlcs))
 	}
@@ -961,7 +961,7 @@ func (r *c03lRun) drain() {
 			if calm >= 3 {
 				r.emit("Q => ok\n")
 				r.stats["quiescent"]++
-				r.snapshot()
+				r.snapshot("S")
 				return
 			}
 			time.Sleep(3 * time.Millisecond)
@@ -980,7 +980,7 @@ func (r *c03lRun) drain() {
 					len(r.bobOut), len(r.aIn), r.mailboxLen(), r.bob.OweCommitment(),
 					r.link.channel.OweCommitment())
 				r.stats["quiesce_timeout"]++
-				r.snapshot()
+				r.snapshot("SX") // diagnostic only
 				r.dead = true
 			}
 			return
